@@ -641,6 +641,41 @@ def r4_cookie_attributes(run):
             raise AnchorError('%s.set_cookie not found' % cq)
         if cq == ASGI_RESPONSE and f is p.lookup_method(RESPONSE, 'set_cookie'):
             continue
+        # naive `expires` values are UTC by contract: astimezone() may only be
+        # applied where the value is known to be aware (tzinfo is not None) --
+        # on a naive datetime it assumes the process-local zone
+        _cfg0 = cfg_of(f, p)
+        for n0 in _cfg0.live_nodes():
+            for c0 in n0.calls():
+                if isinstance(c0.func, ast.Attribute) and c0.func.attr == 'astimezone' and isinstance(c0.func.value, ast.Name) \
+                        and c0.func.value.id in f.params():
+                    prm = c0.func.value.id
+
+                    def tz_none(e, prm=prm):
+                        return (isinstance(e, ast.Compare) and len(e.ops) == 1 and isinstance(e.ops[0], ast.Is)
+                                and isinstance(e.left, ast.Attribute) and e.left.attr == 'tzinfo' and isinstance(e.left.value, ast.Name)
+                                and e.left.value.id == prm and isinstance(e.comparators[0], ast.Constant) and e.comparators[0].value is None)
+
+                    def tz_not_none(e, prm=prm):
+                        return (isinstance(e, ast.Compare) and len(e.ops) == 1 and isinstance(e.ops[0], ast.IsNot)
+                                and isinstance(e.left, ast.Attribute) and e.left.attr == 'tzinfo' and isinstance(e.left.value, ast.Name)
+                                and e.left.value.id == prm and isinstance(e.comparators[0], ast.Constant) and e.comparators[0].value is None)
+
+                    aware_edges = []
+                    for t0 in _cfg0.live_nodes():
+                        if t0.kind != 'test':
+                            continue
+                        for (y0, l0) in _cfg0.succ[t0.id]:
+                            if l0 not in ('T', 'F'):
+                                continue
+                            r1 = implied(t0.ast, l0 == 'T', tz_none)
+                            r2 = implied(t0.ast, l0 == 'T', tz_not_none)
+                            if r1 is False or r2 is True:
+                                aware_edges.append((t0.id, y0, l0))
+                    ok0 = any(flow.dominated_by_edge(_cfg0, n0.id, e0) for e0 in aware_edges)
+                    run.check(ok0, 'set_cookie converts `%s` with astimezone() only where it is known to be timezone-aware '
+                                   '(a naive value is UTC by contract, astimezone() would read it as local time)' % prm, f, c0,
+                              runtime_witness='TZ=EST5: set_cookie(expires=datetime(2030,1,1,12,0)) emits 17:00:00 GMT')
         cfg, attrs, values, taint = _cookie_wiring(run, f, SET_COOKIE_TABLE, 'name', {})
         # secure=None defers to the app option
         is_none_atom = lambda e: (isinstance(e, ast.Compare) and len(e.ops) == 1 and isinstance(e.left, ast.Name)  # noqa: E731
@@ -1169,6 +1204,72 @@ def r9_single_pass(run):
               runtime_witness='resp.set_headers((k, v) for k, v in pairs) returns normally and sets nothing')
 
 
+# ---------------------------------------------------------------------------
+# R10 the ASCII fallback of a download filename really is ASCII
+# ---------------------------------------------------------------------------
+
+def r10_ascii_fallback(run):
+    """For a non-ASCII download name the header carries `filename=<fallback>`
+    produced by secure_filename().  The header must be pure ASCII, so whatever
+    secure_filename lets through must be ASCII: its "unsafe character" pattern
+    has to be a NEGATED class whose members are ASCII literals/ranges only.
+    A category escape such as \\w or \\d in a str pattern without re.ASCII
+    matches letters/digits of every script, i.e. lets them through.
+    W: resp.downloadable_as = 'отчёт.pdf' emits a non-ASCII header (ASGI: ValueError)."""
+    import re
+    try:
+        import re._parser as sre_parse  # py3.11+
+    except ImportError:  # pragma: no cover
+        import sre_parse
+    p = run.project
+    f = p.func('falcon.util.misc.secure_filename')
+    run.use(f)
+    mod = f.module
+    subs = [c for c in walk_self(f.node) if isinstance(c, ast.Call) and isinstance(c.func, ast.Attribute) and c.func.attr == 'sub'
+            and isinstance(c.func.value, ast.Name) and c.func.value.id in mod.consts]
+    if not subs:
+        raise AnchorError('secure_filename: no <module regex>.sub(...) call')
+    last_ret = [r for r in walk_self(f.node) if isinstance(r, ast.Return) and r.value is not None]
+    for c in subs:
+        rx = mod.consts[c.func.value.id]
+        if not (isinstance(rx, ast.Call) and rx.args):
+            raise UnknownIdiom('secure_filename: %s is not re.compile(<literal>)' % c.func.value.id)
+        pat = p.fold(mod, rx.args[0], None, None)
+        if not isinstance(pat, str):
+            raise UnknownIdiom('secure_filename: pattern of %s is not a str literal' % c.func.value.id)
+        flags_ascii = any('ASCII' in unparse(a) or unparse(a).endswith('.A') for a in list(rx.args[1:]) + [k.value for k in rx.keywords])
+        try:
+            parsed = sre_parse.parse(pat)
+        except Exception as e:
+            raise UnknownIdiom('secure_filename: cannot parse pattern %r (%s)' % (pat, e))
+        ok = len(parsed) == 1 and str(parsed[0][0]) == 'IN'
+        why = ''
+        if ok:
+            items = list(parsed[0][1])
+            if not items or str(items[0][0]) != 'NEGATE':
+                ok, why = False, 'the class is not negated'
+            for op, av in items[1:]:
+                op = str(op)
+                if op == 'LITERAL' and av < 128:
+                    continue
+                if op == 'RANGE' and av[1] < 128:
+                    continue
+                if op == 'CATEGORY' and flags_ascii:
+                    continue
+                ok, why = False, 'member %s %s admits non-ASCII characters' % (op, av)
+        else:
+            why = 'the pattern is not a single character class'
+        run.check(ok, 'secure_filename replaces every character outside an ASCII-only allow-list (so the filename= fallback is ASCII)', f,
+                  '%s = re.compile(%r)' % (c.func.value.id, pat), where=f.loc(c), witness=[why] if why else None,
+                  runtime_witness="resp.downloadable_as = 'отчёт за 2024.pdf': filename=отче_т_за_2024.pdf goes out raw")
+    # and the fallback used by the header formatter is that function
+    g = p.func('falcon.response_helpers._format_content_disposition')
+    run.use(g)
+    uses = [c for c in walk_self(g.node) if isinstance(c, ast.Call) and p.resolve_callable(g, c.func) is f]
+    run.check(bool(uses), 'the filename= fallback of a non-ASCII download name is secure_filename(name)', g,
+              uses[0] if uses else 'secure_filename not used', where=g.loc())
+
+
 def check(run):
     run.assume('receivers: `self` inside Response classes, parameters annotated Response, and the conventional name `resp` denote a response (A.6)')
     run.assume('http.cookies.Morsel semantics are library behaviour: keys are the RFC 6265 attribute names, OutputString() renders one cookie')
@@ -1179,6 +1280,7 @@ def check(run):
     run.rule('R4', r4_cookie_attributes, 'cookie parameter -> attribute wiring and presence guards', floor=28)
     run.rule('R5', r5_uri_helpers, 'URI-bearing helpers are percent-encoded', floor=9)
     run.rule('R6', r6_property_factory, 'header property factory: one key, None deletes, transform applied', floor=16)
+    run.rule('R10', r10_ascii_fallback, 'the ASCII fallback of a download filename is ASCII', floor=2)
     run.rule('R9', r9_single_pass, 'set_headers consumes its iterable argument in a single pass', floor=1)
     # the URI-bearing helpers (Location, Content-Location, Link) go through the
     # "check escaped" encoder: its already-escaped heuristic and escape shape
